@@ -112,7 +112,7 @@ prop(
     level="other",
     explanation=(
         "Decided per stage, because parsing a whole datagram of arbitrary bytes is not tractable (C07). "
-        "(1) Dispatcher: well-formed datagrams [INFO_TS, HEARTBEAT] and [INFO_SRC, INFO_DST, PAD] with symbolic field values "
+        "(1) Dispatcher: well-formed datagrams [INFO_TS(invalidate), HEARTBEAT] and [INFO_TS, INFO_SRC, PAD] with symbolic field values "
         "go through the real parser RtpsMessageRead::try_from and the real MessageReceiver until exhaustion - the pair "
         "DcpsDomainParticipant::handle_data runs on every datagram: no panic, exactly the entity submessage is yielded, the "
         "interpreter state (source prefix, timestamp) is the one the submessages carry. "
@@ -132,8 +132,8 @@ prop(
         "FragmentNumberSet base overflow, zero-length CDR string in discovery data (KF-C07-1..3, decided); the GAP handler "
         "loops gapList.base - gapStart times, up to 2^63 (KF-C06-2: established by reading "
         "communication_methods.rs:584, harness in the thorough tier, not yet decided by the solver)."),
-    bounds="datagrams of 28..64 bytes with concrete framing (submessage ids, flags, lengths) and symbolic values; writer proxy "
-           "in its initial state with one DATA_FRAG (2-byte payload); sets of <= 32 bits; unwind 3..36",
+    bounds="datagrams of 28..60 bytes with concrete framing (submessage ids, flags, lengths) and symbolic values; writer proxy "
+           "in its initial state with one DATA_FRAG (2-byte payload); sets of <= 8 bits; unwind 3..30",
     outside="arbitrary (not well-framed) datagram bytes through the whole parser (per-unit totality: C07); every handler of "
             "DcpsDomainParticipant::handle_data on a real participant (GAP, HEARTBEAT, ACKNACK, NACK_FRAG, HEARTBEAT_FRAG, DATA, "
             "DATA_FRAG with matched user readers / writers): the participant-level harnesses need > 900 s each on the shared "
